@@ -166,7 +166,7 @@ fn trees(three: bool) -> Vec<(E, bool)> {
         out.push((E::Bin(Bin::And, b(inner_bool.clone()), b(E::Not(b(inner_bool.clone())))), true));
     }
     // unary / postfix forms stacked two deep over every kind of atom (column and literals), alone and as operand of a binary operator
-    let atoms: Vec<E> = vec![col("i"), E::Lit(Lit::Int(1)), E::Lit(Lit::Real(1.5)), E::Lit(Lit::Text("7".into())), col("a"), col("t")];
+    let atoms: Vec<E> = vec![col("i"), E::Lit(Lit::Int(1)), E::Lit(Lit::Real(1.5)), E::Lit(Lit::Text("7".into())), col("a"), col("t"), E::Lit(Lit::Null), E::Lit(Lit::Bool(true))];
     let wrap = |k: usize, x: E| -> E {
         match k {
             0 => E::Neg(b(x)),
